@@ -2,8 +2,10 @@
 import os
 
 from .. import gen, tree as T
-from ..common import G, flags_of
+from ..common import G, flags_of, pathlib_mask
 from wcmatch import pathlib as WP
+
+PATHLIB_MASK = pathlib_mask()
 
 SPEC = {
     'rule': ('on generated trees (with names differing only in case) lists of 1-4 overlapping / identical / case-variant '
@@ -154,7 +156,7 @@ def check_list(ctx, tr, rng, k, j):
                          dict(wit, expected=concat[:30], result=res[:30]))
     # the same through pathlib
     if j % 3 == 0 and not any(p.startswith('/') for p in api_pats):
-        pflags = flags & WP.FLAG_MASK | (WP.SCANDOTDIR if 'SCANDOTDIR' in fn else 0)
+        pflags = flags & PATHLIB_MASK | (WP.SCANDOTDIR if 'SCANDOTDIR' in fn else 0)
         try:
             pres = [str(p) for p in WP.Path(root).glob(api_pats, flags=pflags, **kw)]
         except Exception as e:  # noqa: BLE001
@@ -171,6 +173,14 @@ def check_list(ctx, tr, rng, k, j):
                 ctx.disagree('Path.glob of a list differs (as a set) from glob.glob with the same root', dict(wit, glob=sorted(want)[:20], pathlib=sorted(gotp)[:20]))
             if not nounique and len(set(pres)) != len(pres) and 'IGNORECASE' not in fn:
                 ctx.disagree('Path.glob returns one path twice', dict(wit, pathlib=pres[:30]))
+            if nounique and 'SCANDOTDIR' not in fn:
+                # NOUNIQUE through pathlib: the concatenation with duplicates kept, like glob.glob
+                lw = [fold(os.path.normpath(os.path.join(root, T.norm_result(x))), icase) for x in res]
+                lg = [fold(os.path.normpath(x), icase) for x in pres]
+                ctx.count('pathlib_nounique_checks')
+                if lw != lg:
+                    ctx.disagree('NOUNIQUE: Path.glob of a list is not the concatenation glob.glob returns (duplicates / order)',
+                                 dict(wit, glob=[os.path.relpath(x, root) for x in lw[:20]], pathlib=[os.path.relpath(x, root) for x in lg[:20]]))
     if overlap or removed:
         ctx.mark_nontrivial((ctx.shard, k, j))
     if j == 0 and k % 8 == 0:
